@@ -256,28 +256,6 @@ Proof.
   - destruct (find_cable c' cs); [reflexivity|]. rewrite str_eqb_sym, E. reflexivity.
 Qed.
 
-Lemma wire_at_connect pr c k m m' c' k' :
-  connect pr c k m = Ok m' ->
-  wire_at c' k' (m_cables m') =
-  wire_at c' k' (m_cables m) ++ (if str_eqb c' c && Nat.eqb k' k then [pr] else []).
-Proof.
-  unfold connect. destruct (connected m pr); [discriminate|]. intro H. inversion H; subst m'. clear H.
-  cbn [set_cables m_cables]. destruct (find_cable c (m_cables m)) as [x|] eqn:E.
-  - rewrite wire_at_upd. unfold wire_at. destruct (str_eqb c' c) eqn:E2.
-    + apply str_eqb_spec in E2. subst c'. rewrite E. cbn [andb]. apply nth_add_to_wire.
-    + cbn [andb]. rewrite app_nil_r. reflexivity.
-  - rewrite (wire_at_app_new _ _ _ _ _ E). destruct (str_eqb c' c) eqn:E2; cbn [andb].
-    + apply str_eqb_spec in E2. subst c'. unfold wire_at. rewrite E. rewrite nth_add_to_wire.
-      destruct k'; reflexivity.
-    + rewrite app_nil_r. reflexivity.
-Qed.
-
-Lemma connect_fields pr c k m m' :
-  connect pr c k m = Ok m' ->
-  m_name m' = m_name m /\ m_ports m' = m_ports m /\ m_insts m' = m_insts m /\ m_orphans m' = m_orphans m /\
-  m_clock m' = m_clock m /\ m_lib m' = m_lib m /\ m_defined m' = m_defined m.
-Proof. unfold connect. destruct (connected m pr); [discriminate|]. intro H. inversion H. repeat split. Qed.
-
 Lemma nth_pad_wires k ws k' : nth k' (pad_wires k ws) [] = nth k' ws [].
 Proof.
   revert ws k'. induction k as [|k IH]; intros [|w ws] [|k']; cbn [pad_wires nth];
